@@ -32,8 +32,14 @@ inductive Line
 /-- trace points whose (cursor, size) pair is not a cursor/allocation pair -/
 def exemptName (n : String) : Bool := n == "mem.req"
 
+/-- `add_input` request: (outptr offset in the current buffer, length of the text) -/
+def addReqName (n : String) : Bool := n == "lbuf.add.req" || n == "lbuf.add.req.a"
+
 def okOut : Out → Bool
-  | .ev name c s => if exemptName name then decide (0 ≤ c ∧ c < numAreas) else decide (0 ≤ c ∧ c ≤ s)
+  | .ev name c s =>
+    if exemptName name then decide (0 ≤ c ∧ c < numAreas)
+    else if addReqName name then decide (0 ≤ c ∧ c ≤ defmax ∧ 0 ≤ s)
+    else decide (0 ≤ c ∧ c ≤ s)
   | .ident lnumNew _ _ _ _ _ => decide (0 ≤ lnumNew)
   | .identBind _ after _ _ _ _ _ => decide (0 ≤ after)
   | .identClean _ delta => decide (delta = 0)
